@@ -74,10 +74,16 @@ fn real_kmers<IntT: for<'a> UInt<'a>>(seq: &[u8], qual: Option<&[u8]>, k: usize,
     out
 }
 
+/// a k-mer equal to its own reverse complement may be reported in either orientation (the property does not fix
+/// the tie): normalise such entries before comparing
+fn norm_ties(v: Vec<(u128, u8, bool, usize, bool)>) -> Vec<(u128, u8, bool, usize, bool)> {
+    v.into_iter().map(|(km, b, r, p, pal)| if pal { (km, b.min(b ^ 2), false, p, pal) } else { (km, b, r, p, pal) }).collect()
+}
+
 fn check_kmer(seq: &[u8], qual: Option<&[u8]>, k: usize, rc: bool, minq: u8, qf: QualFilter) -> Option<String> {
-    let want = naive_kmers(seq, qual, k, rc, minq, qf);
-    let got64 = if k <= 31 { Some(real_kmers::<u64>(seq, qual, k, rc, minq, qf, |x| x as u128)) } else { None };
-    let got128 = real_kmers::<u128>(seq, qual, k, rc, minq, qf, |x| x);
+    let want = norm_ties(naive_kmers(seq, qual, k, rc, minq, qf));
+    let got64 = if k <= 31 { Some(norm_ties(real_kmers::<u64>(seq, qual, k, rc, minq, qf, |x| x as u128))) } else { None };
+    let got128 = norm_ties(real_kmers::<u128>(seq, qual, k, rc, minq, qf, |x| x));
     if let Some(g) = got64 {
         if g != want {
             return Some(format!("u64: expected {:?} got {:?}", want, g));
